@@ -168,7 +168,13 @@ def typed_sweep(g):
         if k == "DiameterURI":
             variants += [b"aaa://", b"aaa://\xff\xfe", b"aaas://ab", b"\xc3\x28", b"aaa://host.example.com:0", b"http://x.y",
                          b"aaa://host.example.com", b"aaa://host.example.com:3868;transport=tcp", b"aaa://h\nx.y", b"aaa://9.b.c",
-                         b"aaa://host:49152", b"aaa://host:49151;protocol=radius", "aaa://épc.org".encode(), b"aaa://ab"]
+                         b"aaa://host:49152", b"aaa://host:49151;protocol=radius", "aaa://épc.org".encode(), b"aaa://ab",
+                         # long, nearly valid names that end in a character no pattern accepts: a pattern with nested
+                         # repetition needs exponential time to give up on them
+                         b"aaa://relay-node-01-frankfurt-de-prod-cluster-a-zone-b!", b"aaa://" + b"a-" * 24 + b"!",
+                         b"aaa://" + b"a." * 28 + b"!", b"aaa://" + b"a" * 60 + b"!", b"aaas://" + b"ab-cd." * 10 + b"example!;transport=tcp",
+                         b"aaa://host.example.com;transport=tcp ", b"aaa://host.example.com:70000", b"aaa://host.example.com\r\n",
+                         b"aaa://host.example.com\x00", b"aaa://host.example.com;transport=tcp;protocol=diameter;x"]
         if k == "Enumerated":
             variants += [v.to_bytes(4, "big") for v in row["values"][:6]] + [b"\x00\x00\x00\x63", b"\xff\xff\xff\xff"]
         if k == "Grouped":
@@ -427,20 +433,32 @@ def explore_node(chk, cases, rng, tag):
             m.append(DiameterAVP(code=code, flags=0xC0, vendor_id=10415, data=b"local.example"))
             twins.append(("vendor-twin=%d" % code, m.dump()))
     n_ticked = 0
+    old_handler = signal.signal(signal.SIGALRM, _alarm)
     for kind, w in list(cases) + twins:
         if chk.saturated(40):
             break
+        signal.setitimer(signal.ITIMER_REAL, 2.0)
         try:
-            msgs = DiameterMessage.load(w)
+            try:
+                msgs = DiameterMessage.load(w)
+            finally:
+                signal.setitimer(signal.ITIMER_REAL, 0)
         except BaseException as e:
             if isinstance(e, (KeyboardInterrupt, SystemExit)):
                 raise
-            continue
+            continue                     # rejected (or timed out: that is the decoder sweep's finding, not this one's)
         for m in msgs[:3]:
             if not open_node():
                 raise core.HarnessError("could not bring the node to Open")
             node.inject(m)
-            exc = node.tick()
+            signal.setitimer(signal.ITIMER_REAL, 2.0)
+            try:
+                try:
+                    exc = node.tick()
+                finally:
+                    signal.setitimer(signal.ITIMER_REAL, 0)
+            except Hang:
+                exc = "Hang (no return within 2 s)"
             n_ticked += 1
             inp = {"op": "node-tick-in-open", "mutation": kind.split("=")[0], "hex": w.hex()[:600]}
             chk.case(inp, kind="node:%s:%s" % (kind.split("=")[0], tag))
@@ -449,7 +467,36 @@ def explore_node(chk, cases, rng, tag):
                               inp, "no exception", exc)
             if not node.lock_free():
                 chk.violation("a decodable message left the association lock held", inp, "lock released", "held")
+    signal.signal(signal.SIGALRM, old_handler)
     chk.extra["node_ticks"] = chk.extra.get("node_ticks", 0) + n_ticked
+    # answers to a local request, delivered once, twice, and with foreign identifiers: the node goes on answering watchdogs
+    from bromelia.base import DiameterRequest
+    from bromelia.avps import SessionIdAVP, OriginHostAVP
+    for copies in (1, 2, 3):
+        for variant in ("same-ids", "other-e2e", "other-hbh"):
+            if not open_node():
+                raise core.HarnessError("could not bring the node to Open")
+            req = DiameterRequest(command_code=316, application_id=(16777251).to_bytes(4, "big"))
+            req.header.hop_by_hop, req.header.end_to_end = (77).to_bytes(4, "big"), (88).to_bytes(4, "big")
+            req.append(SessionIdAVP(b"s;3;4"))
+            req.append(OriginHostAVP(psmdrv.LHOST))
+            node.submit(req)
+            node.tick()
+            hbh, e2e = (77, 88) if variant == "same-ids" else ((77, 89) if variant == "other-e2e" else (78, 88))
+            excs = []
+            for _ in range(copies):
+                ans, _t, _s = fac.loaded("app.ans", hbh, e2e)
+                node.inject(ans)
+                excs.append(node.tick())
+            dwr, _t, _s = fac.loaded("dwr.ok", 5, 6)
+            node.inject(dwr)
+            excs.append(node.tick())
+            out = [psmdrv.out_token(m) for m in node.take_emitted()]
+            inp = {"op": "node-answers-to-local-request", "copies": copies, "variant": variant}
+            chk.case(inp, kind="node:own-answers:%s" % tag)
+            if any(e not in (None, "stopped") for e in excs) or "dwa:5:6" not in out:
+                chk.violation("answers to a local request (repeated / with foreign identifiers) stopped the state machine", inp,
+                              "no exception, the following watchdog request is answered", {"exceptions": excs, "written": out})
     # wedge test
     good = fac.wire("app.req-none", 5, 6)
     for ln in (0, 1, 19):
